@@ -46,4 +46,11 @@ def wq : Spec :=
     crashClause := "C04.no_crash_no_hang",
     raceClause := fun fns => if contains fns "Errors" then "C14.no_data_race" else "C04.no_data_race" }
 
+def cache : Spec :=
+  { counters := [("panics", "C08.no_panic"), ("badget", "C08.get_was_set"), ("viewbad", "C08.views_consistent_at_quiescence"),
+                 ("swbad", "C08.single_writer_last_value_or_absent"), ("missing", "C08.nothing_missing_within_capacity"),
+                 ("sweeperleft", "C08.cancel_ends_sweeper"), ("hang", "C08.no_deadlock")],
+    crashClause := "C08.no_panic",
+    raceClause := fun _ => "C08.no_data_race" }
+
 end Driver.Stress
